@@ -167,6 +167,10 @@ class ScriptedTask(experiment.runtime.task.Task):
         if self.isAlive():
             REC.record("task.kill", self.ref, exec=self.exec_no)
             self._finish("Killed")
+            # some backends only return from kill() after the task is gone (docker stop/rm, LSF terminate sleeps)
+            lat = float(self.entry.get("kill_latency", 0.0) or 0.0)
+            if lat > 0:
+                time.sleep(lat / dilate.K)
 
     def terminate(self):
         if self.isAlive():
